@@ -283,6 +283,9 @@ pub fn c06_shapes(thorough: bool, seed: u64) -> Vec<Shape> {
     let mut v = c01_shapes(thorough, seed);
     // a commitment that is the identity point (commit(0,0)) must still be absorbed
     v.push(Shape::new("identity_commitment", &[Commit, CommitZero, Commit, AllocMul, Con], &[]));
+    v.push(Shape::new("equal_point_committed_twice", &[Commit, CommitDup, AllocMul, Con, CommitDup], &[]));
+    v.push(Shape::new("repeated_challenge_labels_and_late_data", &[Commit, AllocMul], &[&[Chal, Con, Chal, Msg("x".into()), Con, Msg("after the last challenge".into())], &[Chal, Con, Msg("y".into())]]));
+    v.push(Shape::new("closure_with_constraints_only", &[Commit, AllocMul, Con], &[&[Chal, Con, ConCommitted]]));
     if thorough {
         // every call sequence with <= 3 first-phase and <= 2 second-phase calls
         v.extend(exhaustive_skeletons(3, 2));
